@@ -489,10 +489,7 @@ func (s *Sess) viewSeq(m *Mem, v *View) string {
 }
 
 func (s *Sess) viewElemAddr(v *View, idx string) *Addr {
-	i := idx
-	if v.Off != "0" {
-		i = "(+ " + v.Off + " " + idx + ")"
-	}
+	i := foldAdd(v.Off, idx)
 	if v.IsArray {
 		return v.Origin.with(Step{Kind: stArr, Idx: i, T: v.Origin.elemType()})
 	}
